@@ -969,12 +969,24 @@ def run_ops(ops, with_model=True):
     return w
 
 
+class Record:
+    """what is kept of a finished history (the real objects are released)"""
+
+    def __init__(self, w, stream):
+        self.ops = [list(o) for o in w.ops]
+        self.lines = w.lines
+        self.problems = list(w.oracle.problems)
+        self.failed_solve = w.failed_solve
+        self.stream = stream
+        self.graph = dump(w.lib, w.slots)[:1500]
+
+
 def run(ctx):
-    n_hist = ctx.budget(70, 1500)
+    n_hist = ctx.budget(100, 1200)
     use_model = getattr(ctx, "model_available", True)
-    worlds = []
+    records = []
     for sym in CORPUS:
-        worlds.append((run_sym(sym, use_model), "corpus"))
+        records.append(Record(run_sym(sym, use_model), "corpus"))
     for _ in range(n_hist):
         infeasible = ctx.rng.random() < 0.08
         w = World(use_model)
@@ -982,45 +994,47 @@ def run(ctx):
             gen_history(ctx.rng, w, ctx.rng.randrange(3, 10), infeasible)
         finally:
             w.close()
-        worlds.append((w, "infeasible" if infeasible else "random"))
+        records.append(Record(w, "infeasible" if infeasible else "random"))
+        del w
     lean_lines = []
-    for w, stream in worlds:
-        canon = [list(map(str, o)) for o in w.ops]
-        ctx.case(canon, nontrivial(w.ops))
-        ctx.count("stream:" + stream)
-        for o in w.ops:
+    for r in records:
+        ops = [tuple(o) for o in r.ops]
+        canon = [list(map(str, o)) for o in ops]
+        ctx.case(canon, nontrivial(ops))
+        ctx.count("stream:" + r.stream)
+        for o in ops:
             ctx.count("op:" + o[0])
-        if w.failed_solve:
+        if r.failed_solve:
             ctx.count("solve-raised-inside-pyroll")
-        if len(ctx.samples) < 3 and stream == "random" and nontrivial(w.ops):
-            ctx.sample({"history": canon, "final_graph": dump(w.lib, w.slots)[:1500]})
+        if len(ctx.samples) < 3 and r.stream == "random" and nontrivial(ops):
+            ctx.sample({"history": canon, "final_graph": r.graph})
         seen = set()
-        for key, text in w.oracle.problems:
+        for key, text in r.problems:
             if key in seen:
                 continue
             seen.add(key)
-            ctx.violation(key, text, {"ops": [list(o) for o in w.ops], "problem": text,
+            ctx.violation(key, text, {"ops": r.ops, "problem": text,
                                       "how": "driver/props/c12.py run_ops(ops): apply the ops to real objects; "
                                              "World.oracle.problems lists what the oracle found"})
         lean_lines.append("reset")
-        lean_lines.extend(l for l, _ in w.lines)
+        lean_lines.extend(l for l, _ in r.lines)
     if use_model:
         out = ctx.lean_model(MODEL, lean_lines)
         pos = 0
-        for w, stream in worlds:
+        for r in records:
             pos += 1
             bad = None
-            for i, (line, exp) in enumerate(w.lines):
+            for i, (line, exp) in enumerate(r.lines):
                 got = out[pos + i] if pos + i < len(out) else "<missing>"
                 if bad is None and exp is not None and got != exp:
                     bad = (i, line, exp, got)
-            pos += len(w.lines)
+            pos += len(r.lines)
             if bad is None:
                 ctx.validated()
             else:
                 i, line, exp, got = bad
                 ctx.disagreement(f"model and implementation differ at model line #{i} ({line[:60]})",
-                                 {"ops": [list(o) for o in w.ops], "model_line": line,
+                                 {"ops": r.ops, "model_line": line,
                                   "impl": exp[:3000], "model": got[:3000],
                                   "first_difference": _first_diff(exp, got)})
         if pos != len(out):
